@@ -26,6 +26,19 @@ def resolver_classes():
     return {"base": R.FieldNameResolver, "pydantic": R.PydanticFieldNameResolver, "enum": R.EnumFieldNameResolver}
 
 
+class Refused(Exception):
+    """the resolver's constructor refused the option vector with the package's own `Error` (a reported error)"""
+
+
+def make_resolver(kind: str, cfg: "Cfg"):
+    from datamodel_code_generator import Error
+
+    try:
+        return resolver_classes()[kind](**cfg.kwargs())
+    except Error as e:
+        raise Refused(str(e)) from e
+
+
 # ---------------------------------------------------------------- option vectors
 @dataclass(frozen=True)
 class Cfg:
@@ -66,6 +79,11 @@ class Cfg:
         p = "field" if self.pfx is None else self.pfx
         return p.isidentifier() and not p.startswith("_")
 
+    def prefix_start(self) -> bool:
+        """the guard of the resolver's constructor (Lean: PrefixStart): the prefix is empty or starts an identifier"""
+        p = "field" if self.pfx is None else self.pfx
+        return (p + "_").isidentifier()
+
     def uses_lower(self, ign: bool = False) -> bool:
         return self.cap or (self.snake and not ign)
 
@@ -88,8 +106,13 @@ CFGS = [
     Cfg(snake=True, delim="ab"),
     Cfg(pfx="é"),
 ]
-# special prefixes that are not identifiers make the retry loop diverge (known finding D22): few, short time-out
-CFGS_BAD_PREFIX = [Cfg(pfx="9"), Cfg(pfx="a-b", remove=True)]
+# special prefixes that cannot start an identifier: the constructor of the resolver must REFUSE them (formerly finding
+# D22: the retry loop diverged). Short time-out: a resolver that accepts one of them hangs on the first name.
+CFGS_BAD_PREFIX = [Cfg(pfx="9"), Cfg(pfx="a-b", remove=True), Cfg(pfx=" ", snake=True), Cfg(pfx="x.y", cap=True)]
+# prefixes the constructor admits although PrefixOK fails (empty, leading underscore): termination and legality are proved
+# for them too (retry_terminates / result_legal under PrefixStart)
+CFGS_WEAK_PREFIX = [Cfg(pfx="", remove=True), Cfg(pfx="_"), Cfg(pfx="_", remove=True), Cfg(pfx="__x", remove=True, snake=True),
+                    Cfg(pfx="_X", cap=True), Cfg(pfx="", snake=True, delim="-"), Cfg(pfx="_9", remove=True, cap=True)]
 
 
 # ---------------------------------------------------------------- name generators
@@ -144,7 +167,10 @@ def small_scope(max_len: int) -> list[str]:
 
 # ---------------------------------------------------------------- real side
 def real_valid(kind: str, cfg: Cfg, name: str, excl, ign: bool, uc: bool, timeout: float = 2.0) -> str:
-    res = resolver_classes()[kind](**cfg.kwargs())
+    try:
+        res = make_resolver(kind, cfg)
+    except Refused:
+        return "rejected"
     try:
         with watchdog(timeout):
             r = res.get_valid_name(name, None if excl is None else set(excl), ign, uc)
@@ -156,7 +182,10 @@ def real_valid(kind: str, cfg: Cfg, name: str, excl, ign: bool, uc: bool, timeou
 
 
 def real_field(kind: str, cfg: Cfg, name: str, excl, timeout: float = 2.0) -> str:
-    res = resolver_classes()[kind](**cfg.kwargs())
+    try:
+        res = make_resolver(kind, cfg)
+    except Refused:
+        return "rejected"
     try:
         with watchdog(timeout):
             f, a = res.get_valid_field_name_and_alias(name, None if excl is None else set(excl))
@@ -263,6 +292,8 @@ def campaign_valid(ck: Check, names: list[str], label: str, cfgs: list[Cfg], cha
                     if not impl.startswith("ok "):
                         hangs += impl == "fuel"
                         break
+                    if not cfg.prefix_ok():
+                        camp.hit("prefix:admitted_but_not_PrefixOK")
                     excl = excl + [unhx(impl[3:])]
     reqs = [f"names.valid {k} {c.sx()} {hx(n)} {sx_list(e)} {int(i)} {int(u)}" for k, c, n, e, i, u, _ in cases]
     replies = ck.driver.run(reqs)
@@ -283,14 +314,118 @@ def campaign_valid(ck: Check, names: list[str], label: str, cfgs: list[Cfg], cha
                 camp.distinct.add((kind, cfg.label(), name, tuple(excl), ign, uc))
             oracle_name(ck, camp, kind, cfg, inp, r, excl, uc)
         elif impl == "fuel":
-            ck.fail({"oracle": "get_valid_name", "mechanism": "hang", "prefix_ok": cfg.prefix_ok()}, inp,
-                    f"get_valid_name did not return within {timeout}s")
+            ck.fail({"oracle": "get_valid_name", "mechanism": "hang", "prefix_ok": cfg.prefix_ok(),
+                     "prefix_start": cfg.prefix_start()}, inp, f"get_valid_name did not return within {timeout}s")
+        elif impl == "rejected":
+            # the constructor refused the option vector with the package's Error: a reported error, nothing to sanitise
+            camp.distinct.add((kind, cfg.label()))
         if rep != impl:
             ck.disagree(camp, inp, rep if not rep.startswith("ok ") else "ok " + repr(unhx(rep[3:])),
                         impl if not impl.startswith("ok ") else "ok " + repr(unhx(impl[3:])))
         elif len(camp.samples) < 3 and impl.startswith("ok ") and excl and not name.isascii():
             camp.samples.append({**inp, "result": unhx(impl[3:])})
     camp.wall_s = time.time() - t0
+
+
+# ---------------------------------------------------------------- campaign: the constructor's guard on the special prefix
+PREFIX_CORPUS = [None, "", "field", "_", "__", "_x", "_9", "x9", "é", "class", "None", "9", "0", "a-b", " ", "a b", "x.y", "-", "#",
+                 "²", "x²", "·", "x·", "·x", "٣", "x٣", "Ⅷ", "ำ", "xำ", "ʰ", "\u00aa", "x\n", "\n", "９", "x９", "ｘ", "\x00", "x\x00", "𝟗", "x𝟗",
+                 "\u200c", "x\u200c", "\ufe0f", "℘", "℮", "゛", "x゛"]
+PREFIX_PROBE_NAMES = ["1", "_", "a"]
+
+
+def gen_prefix(rng: Rng, ugroups: list[list[str]]) -> str:
+    """mostly short strings over the characters on which isidentifier / XID_Start / XID_Continue disagree"""
+    n = 1 + rng.below(3)
+    out = []
+    for _ in range(n):
+        g = rng.below(10)
+        if g < 3:
+            out.append(rng.choice(G_ASCII))
+        elif g < 4:
+            out.append(rng.choice(G_PUNCT))
+        elif g < 5:
+            out.append(rng.choice(SMALL_ALPHABET))
+        else:
+            out.append(rng.choice(rng.choice(ugroups)))
+    return "".join(out)
+
+
+def real_new(kind: str, pfx: str | None) -> str:
+    try:
+        res = make_resolver(kind, Cfg(pfx=pfx))
+    except Refused:
+        return "rejected"
+    return "ok " + hx(res.special_field_name_prefix)
+
+
+def prefix_hangs(kind: str, pfx: str | None, timeout: float = 0.25) -> str | None:
+    """a name on which the real resolver built with this prefix does not return, if any"""
+    for name in PREFIX_PROBE_NAMES:
+        for remove in (False, True):
+            if real_valid(kind, Cfg(pfx=pfx, remove=remove), name, None, False, False, timeout) == "fuel":
+                return name
+    return None
+
+
+def campaign_constructor(ck: Check, n: int) -> None:
+    """Model.Names.construct (PrefixStart) vs the constructors of the three resolver classes: which prefixes are refused, and what is
+    stored otherwise. Oracle of the property on the real side: a resolver that EXISTS returns from get_valid_name."""
+    camp = ck.campaign("names.new (Model.Names.construct / PrefixStart) vs the constructors of the three resolver classes over special_field_name_prefix")
+    t0 = time.time()
+    rng = ck.rng.fork("constructor")
+    ug = uni_groups()
+    pool = list(dict.fromkeys(PREFIX_CORPUS + [gen_prefix(rng, ug) for _ in range(n)]))
+    replies = ck.driver.run([f"names.new {'none' if p is None else hx(p)}" for p in pool])
+    hangs = 0
+    for p, rep in zip(pool, replies):
+        for kind in KIND_NAMES:
+            camp.evaluations += 1
+            impl = real_new(kind, p)
+            inp = {"kind": kind, "special_field_name_prefix": p, "cfg_fields": dataclasses.asdict(Cfg(pfx=p))}
+            start = ((("field" if p is None else p) + "_").isidentifier())
+            camp.hit("constructor:" + impl.split(" ")[0])
+            camp.hit("prefix:" + ("none" if p is None else "empty" if p == "" else "leading_underscore" if p.startswith("_")
+                                  else "identifier" if p.isidentifier() else "starts_identifier" if start else "cannot_start_identifier"))
+            if p not in (None, "field"):
+                camp.distinct.add((kind, p))
+            if impl != "rejected" and not start and hangs < 4:
+                # the property's own oracle: the resolver exists, so its get_valid_name must return
+                name = prefix_hangs(kind, p)
+                if name is not None:
+                    hangs += 1
+                    cfg = Cfg(pfx=p)
+                    ck.fail({"oracle": "get_valid_name", "mechanism": "hang", "prefix_ok": False, "prefix_start": False},
+                            {"kind": kind, "cfg": cfg.label(), "name": name, "excludes": [], "ignore_snake": False, "upper_camel": False,
+                             "cfg_fields": dataclasses.asdict(cfg)},
+                            f"the constructor accepted special_field_name_prefix={p!r} and get_valid_name({name!r}) did not return within 0.25 s")
+            if rep != impl:
+                ck.disagree(camp, inp, rep if not rep.startswith("ok ") else "ok " + repr(unhx(rep[3:])),
+                            impl if not impl.startswith("ok ") else "ok " + repr(unhx(impl[3:])))
+            elif len(camp.samples) < 3 and impl == "rejected" and kind == "enum":
+                camp.samples.append({"special_field_name_prefix": p, "kind": kind, "constructor": "raises Error"})
+    camp.wall_s = time.time() - t0
+
+
+def search_prefix(ck: Check) -> None:
+    """Targeted search when the constructor's guard disagrees with the model (or a theorem about it broke): every prefix of a
+    disagreement and the corpus of prefixes that cannot start an identifier become the option of a COMPLETE run of generate() on a
+    document whose member needs the prefix; the end-to-end oracle requires termination (a reported error is fine)."""
+    dis = [d.input for d in ck.disagreements if isinstance(d.input, dict) and "special_field_name_prefix" in d.input]
+    broken = any(("constructor" in t) or ("retry_terminates" in t) or ("resolver_never_hangs" in t) or ("prefixStart" in t) for t in ck.broken)
+    if not dis and not broken:
+        return
+    camp = ck.campaign("search: special prefixes of disagreeing constructor calls as the option of a complete run, end to end")
+    prefixes = list(dict.fromkeys([d["special_field_name_prefix"] for d in dis][:12]
+                                  + [p for p in PREFIX_CORPUS if p is not None and not (p + "_").isidentifier()][:10]))
+    for p in prefixes:
+        if p is None:
+            continue
+        for model in ("pydantic_v2.BaseModel", "typing.TypedDict"):
+            for names in (["1"], ["_", "a"]):
+                e2e_case(ck, camp, names, Cfg(pfx=p), model, timeout=3.0)
+                if ck.failures:
+                    return
 
 
 def _enum_reserved(r: str) -> bool:
@@ -466,7 +601,10 @@ def stage1_fields(names: list[str], cfg: Cfg, timeout: float = 5.0, bools: dict[
 def real_fold(names: list[str], cfg: Cfg, kind: str = "pydantic", bools: dict[str, bool] | None = None) -> str:
     """the loop of parse_object_fields, replayed on the real resolver (every name is added to the excludes,
     boolean-schema or not)"""
-    res = resolver_classes()[kind](**cfg.kwargs())
+    try:
+        res = make_resolver(kind, cfg)
+    except Refused:
+        return "rejected"
     excl: set[str] = set()
     out = []
     try:
@@ -620,7 +758,7 @@ def nfkc_unstable(code: str, names: list[str]) -> bool:
 
 
 def e2e_case(ck: Check, camp, names: list[str], cfg: Cfg, model: str, required: bool = False, nested: str | None = None,
-             bools: dict[str, bool] | None = None) -> None:
+             bools: dict[str, bool] | None = None, timeout: float = 10.0) -> None:
     """name(s) → JSON-Schema document → real generate() → parse, import, members exist, legal and distinct,
     validate-then-dump round trip under the original keys"""
     camp.evaluations += 1
@@ -633,13 +771,16 @@ def e2e_case(ck: Check, camp, names: list[str], cfg: Cfg, model: str, required: 
            "cfg_fields": dataclasses.asdict(cfg)}
     base = {"oracle": "e2e_member", "kind": model, "prefix_ok": cfg.prefix_ok(), "trigger": "none"}
     doc = member_doc(names, names if required else None, nested, bools)
-    res = e2e.run_generate(yaml_safe_json(doc), model=model, opts=parser_kwargs(cfg), timeout=10.0)
+    res = e2e.run_generate(yaml_safe_json(doc), model=model, opts=parser_kwargs(cfg), timeout=timeout)
     if res.hang:
-        ck.fail({**base, "mechanism": "hang"}, inp, "generate() did not return within 10 s")
+        ck.fail({**base, "mechanism": "hang"}, inp, f"generate() did not return within {timeout:g} s")
         return
     if not res.ok:
         if cfg.delim == "" and res.error_type == "ValueError":
             camp.hit("reported_error:empty_delimiter")
+            return
+        if not cfg.prefix_start() and res.error_type == "Error":
+            camp.hit("reported_error:special_prefix_refused")
             return
         ck.fail({**base, "mechanism": "generate_error"}, inp, f"generate() raised {res.error_type}: {res.error_msg}")
         return
@@ -1610,7 +1751,7 @@ def run(ck: Check) -> None:
     ck.assumptions += [
         "CPython's str.isidentifier / re \\w / str.isnumeric / keyword.iskeyword and hasattr(pydantic.BaseModel, ·) are the generated tables of Dcg/Gen/Unicode read by Dcg/Py/{Chars,Ident} (validated in this run, character by character and on whole strings)",
         "str.lower / str.upper enter the theorems as parameters satisfying CaseOK (identifier in, identifier out, no leading underscore created); CaseOK is proved in Lean for the character-wise maps regenerated from the interpreter (python_case_maps_ok) and additionally checked exhaustively by the translator (Gen.Unicode.caseViolations = []); the final-sigma context rule of str.lower is not modelled (both images are XID_Start: finalSigma_ok), names containing a capital sigma under snake-case/capitalise are counted as unmodelled in the correspondence",
-        "the special field-name prefix is a non-empty identifier that does not start with '_' (PrefixOK); other prefixes are the user's explicit choice and only termination/parsability is required of them end to end",
+        "a resolver object exists only for a special field-name prefix that is empty or starts an identifier (PrefixStart = the guard of FieldNameResolver.__init__, tied to the three real constructors by the names.new campaign); termination and legality of the result are proved for every such prefix; the clauses about a leading underscore additionally need a non-empty identifier that does not start with '_' (PrefixOK) — an empty / underscore prefix is the user's explicit choice and only termination, legality and parsability are required of it end to end",
         "Python NFKC-normalises identifiers when it compiles the emitted module; the string-level model does not (known finding D21 covers names that are not NFKC-stable)",
         "dataclass output has no alias mechanism (the statement only requires alias/key preservation for pydantic, msgspec and TypedDict); msgspec is not installed and is checked on the syntax tree only",
     ]
@@ -1632,7 +1773,13 @@ def run(ck: Check) -> None:
     if not hung(ck):
         campaign_valid(ck, small_scope(2 if quick else 3), "small scope: all names over the 14-symbol alphabet", CFGS[:5] if quick else CFGS)
     if not hung(ck):
-        campaign_valid(ck, ["1", "a", "_"], "non-identifier special prefixes (known finding D22)", CFGS_BAD_PREFIX, chain=1, timeout=0.2)
+        campaign_constructor(ck, 1500 if quick else 20000)
+    if not hung(ck):
+        campaign_valid(ck, ["1", "a", "_", "", "#"], "special prefixes that cannot start an identifier: refused by the constructor",
+                       CFGS_BAD_PREFIX, chain=1, timeout=0.2)
+    if not hung(ck):
+        campaign_valid(ck, names[: 400 if quick else 4000] + small_scope(2), "admitted prefixes outside PrefixOK: empty / leading underscore",
+                       CFGS_WEAK_PREFIX)
     if not hung(ck):
         campaign_fold(ck, 500 if quick else 5000, names)
     if not hung(ck):
@@ -1641,6 +1788,7 @@ def run(ck: Check) -> None:
     if not hung(ck):
         campaign_td_objects(ck, 400 if quick else 6000)
         campaign_td_inherit(ck, 220 if quick else 4000)
+    ck.search_hooks.append(search_prefix)
     ck.search_hooks.append(search_td)
     ck.search_hooks.append(search_names)
     known_findings(ck)
@@ -1672,7 +1820,8 @@ def replay(ck: Check, path: str) -> int:
         if impl.startswith("ok "):
             oracle_name(ck, camp, inp["kind"], cfg, inp, unhx(impl[3:]), inp.get("excludes") or [], inp.get("upper_camel", False))
         elif impl == "fuel":
-            ck.fail({"oracle": "get_valid_name", "mechanism": "hang", "prefix_ok": cfg.prefix_ok()}, inp, "get_valid_name did not return")
+            ck.fail({"oracle": "get_valid_name", "mechanism": "hang", "prefix_ok": cfg.prefix_ok(), "prefix_start": cfg.prefix_start()},
+                    inp, "get_valid_name did not return")
     for f in ck.failures:
         print("REPLAY-FAILS:", json.dumps(f.classification), f.observed[:300])
     if not ck.failures:
